@@ -469,6 +469,14 @@ func (c08Prop) Gen(seed uint64, tier string, i int) Case {
 	one := Window{StartMs: faultStart + 10*faultStep, EndMs: faultStart + 10*faultStep, StepMs: faultStep} // a range query of a single step
 	c.Dataset = c08Dataset()
 	c.Engine = EngineCfg{Opt: "none", Procs: 4}
+	switch {
+	case r.P(0.3):
+		// a per-query lookback delta: it applies on whichever path answers the query (series that end
+		// at step 12 then vanish after 60s instead of 5m)
+		c.Engine.QueryLookbackMs = Pick(r, []int64{60_000, 45_000, 420_001})
+	case r.P(0.2):
+		c.Engine.EmptyQueryOpts = true
+	}
 	if i < len(qs)*3 {
 		c.Query = qs[i/3]
 		c.Window = []Window{inst, rng, one}[i%3]
